@@ -33,6 +33,9 @@ def run(tier, seed, args):
         srcs.append(progs.prog(f"halfdefault{i}", [progs.new(), progs.pc(X + [progs.rec("intensity", "int", mn, mx)], 30, seed=seed + i), progs.FIN]))
     if tier == "thorough":
         srcs += progs.c12_programs(seed, "quick")
+        srcs += [p for p in progs.c14_programs(seed, "thorough") if p["name"].startswith(("b_random", "b_constant"))]
+        srcs += [p for p in progs.c04_programs(seed, "thorough") if p["name"].startswith(("string", "float")) and not p.get("nonxml")]
+        srcs += [p for p in progs.c13_programs(seed, "quick") if "limits" in p["name"] and "nan" not in p["name"]][:20]
     # files of the independent encoder (C03) when available
     try:
         import c03
